@@ -108,6 +108,7 @@ func main() {
 			cases = append(cases, names.NestedC12(r, n)...)
 			cases = append(cases, names.WeirdC12(r, 3*n)...)
 			cases = append(cases, names.MultiC12(r, n)...)
+			cases = append(cases, names.FixedC12()...)
 			cases = append(cases, names.CaptureC12(r, m)...)
 			cases = append(cases, names.F13Case())
 		default:
